@@ -3,17 +3,17 @@ CONSTANT n1 = n1
 CONSTANT n2 = n2
 CONSTANT DBs = {"A", "B"}
 CONSTANT CollChoices <- CC3
-CONSTANT MaxOps = 4
-CONSTANT MaxLoads = 1
+CONSTANT MaxOps = 6
+CONSTANT MaxLoads = 2
 CONSTANT MaxCrashes = 1
 CONSTANT MaxAttempts = 2
 CONSTANT MaxAttemptsU = 2
 CONSTANT MaxReload = 3
-CONSTANT MaxSteps = 70
+CONSTANT MaxSteps = 80
 CONSTANT Sequential = FALSE
 CONSTANT AllowStalePrev = TRUE
 CONSTANT AllowOrphanDeleteLive = TRUE
 CONSTANT AllowDeleteFinalizeLive = TRUE
-SPECIFICATION Spec
+SPECIFICATION SimSpec
 INVARIANT BehaviourExport
 CHECK_DEADLOCK FALSE
